@@ -35,19 +35,17 @@
 (*      status "unspec"; such behaviours are not emitted.                                         *)
 EXTENDS Prolog
 
+(* the machine record of Prolog!Load plus the fields of this module *)
 LoadX(prog, dyn, q) ==
-  LET l == Load(prog, dyn, q) IN
-  [phase |-> l.phase, status |-> l.status, steps |-> l.steps, prog |-> l.prog, q |-> l.q, qv |-> l.qv,
-   db |-> l.db, nid |-> l.nid, dyn |-> l.dyn, static |-> l.static, st |-> l.st, gs |-> l.gs, cps |-> l.cps,
-   k |-> l.k, ans |-> l.ans, ball |-> l.ball, lh |-> l.lh, out |-> l.out, gv |-> l.gv, ve |-> l.ve,
-   cl |-> <<>>,          \* cl[u]: how often the cleanup of setup_call_cleanup instance u was started
-   unspec |-> FALSE,
+  Load(prog, dyn, q) @@
+  [cl |-> <<>>,          \* cl[u]: how often the cleanup of setup_call_cleanup instance u was started
+   unspec |-> FALSE,     \* an outcome the property does not determine was taken (see above)
+   nested |-> FALSE,     \* classification only: a cleanup entry was removed by a cut or by failure while the entry directly
+                         \* below it is another cleanup entry whose goal is still running
    condb |-> {},         \* heights of m.cps that are the cut barrier of a running if-then-else condition
    condcut |-> FALSE,    \* classification only: a cut local to an if-then-else condition was executed
    diffrz |-> FALSE,     \* classification only: a variable had a suspended goal and a dif/2 constraint at the same time
-   snap |-> EmptyStore,  \* store recorded by the marker goal '$snap' (compared by '$chk')
-   nested |-> FALSE]     \* classification only: a cleanup entry was removed by a cut or by failure while the entry directly
-                         \* below it is another cleanup entry whose goal is still running
+   snap |-> EmptyStore]  \* store recorded by the marker goal '$snap' (compared by '$chk')
 
 (* ---- pseudo-variables of the store ---- *)
 OvVar(key)  == [t |-> "v", n |-> "$bb:" \o key, i |-> 0, a |-> <<>>]
@@ -157,20 +155,6 @@ StepY(m) ==
   IN
   IF IsA(g, "!") THEN CutTo([m0 EXCEPT !.condcut = @ \/ (fr.cb \in m.condb)], fr.cb, rest)
   ELSE IF IsF(g, "$cut", 1) THEN CutTo(m0, g.a[1].i, rest)
-  (* \+, forall/2, findall/3: as in Prolog.tla, but the continuation stays on the goal stack below the final  *)
-  (* 'fail' (it is never executed): Prolog!Unwind finds the active catch/3 frames through their '$popcatch'   *)
-  (* markers on the goal stack, and an exception raised inside these constructs must see the enclosing ones.  *)
-  ELSE IF IsF(g, "\\+", 1) THEN
-       [m0 EXCEPT !.cps = Append(m.cps, CP("alt", rest, m.st, None, None)),
-                  !.gs = <<F(Call1(g.a[1]), h0 + 1), F(C1("$cut", I(h0)), 0), F(Fail, 0)>> \o rest]
-  ELSE IF IsF(g, "forall", 2) THEN
-       [m0 EXCEPT !.cps = Append(m.cps, CP("alt", rest, m.st, None, None)),
-                  !.gs = <<F(Call1(g.a[1]), h0 + 1), F(Not(g.a[2]), h0 + 1), F(C1("$cut", I(h0)), 0), F(Fail, 0)>> \o rest]
-  ELSE IF IsF(g, "findall", 3) THEN
-       IF ~PartialList(m.st, g.a[3]) THEN Thr(TypeErr("list", g.a[3]))
-       ELSE [m0 EXCEPT !.cps = Append(m.cps, CP("alt", <<F(C1("$fa_done", g.a[3]), 0)>> \o rest, m.st, None, None)),
-                       !.lh = Append(m.lh, [h |-> h0 + 1, items |-> <<>>]),
-                       !.gs = <<F(Call1(g.a[2]), h0 + 1), F(C1("$fa_push", g.a[1]), 0), F(Fail, 0)>> \o rest]
   ELSE IF IsF(g, "setup_call_cleanup", 3) THEN
        [m0 EXCEPT !.gs = <<F(C1("once", g.a[1]), 0), F(C2("$scc_install", g.a[2], g.a[3]), 0)>> \o rest]
   ELSE IF IsF(g, "call_cleanup", 2) THEN
@@ -218,7 +202,7 @@ StepY(m) ==
   ELSE IF IsF(g, "bb_b_put", 2) THEN
        LET kx == Deref(m.st, g.a[1]) IN
        IF kx.t # "a" THEN Thr(TypeErr("atom", kx))
-       ELSE [cont EXCEPT !.st = Bind(m.st, OvVar(kx.n), Deref(m.st, g.a[2]))]
+       ELSE [cont EXCEPT !.gv = (kx.n :> Apply(m.st, g.a[2])) @@ m.gv]
   ELSE IF IsF(g, "bb_get", 2) /\ Deref(m.st, g.a[1]).t = "a" /\ OvVar(Deref(m.st, g.a[1]).n) \in DOMAIN m.st THEN
        LET u == Unify(m.st, g.a[2], m.st[OvVar(Deref(m.st, g.a[1]).n)])
        IN IF u.cyc THEN Finish(m0, "cyclic")
